@@ -381,6 +381,16 @@ fn make_style_sections<'a>(
     let mut curr = 0;
     for (start_, end_) in submatches {
         let (start, end) = (*start_, *end_);
+        // A submatch must be a substring of the line located after the previous one.
+        // Ignore it otherwise (e.g. offsets beyond the end of the line, or offsets which
+        // the tab expansion shift has moved into the middle of a multi-byte character).
+        if start < curr
+            || end < start
+            || !line.is_char_boundary(start)
+            || !line.is_char_boundary(end)
+        {
+            continue;
+        }
         if start > curr {
             sections.push((non_match_style, &line[curr..start]))
         };
